@@ -120,9 +120,9 @@ uint StatCoder::decodeString(ChunkScan *c) {
     }
   }
 
-  // Extracts, at least, the two first bytes because represent the VByte
-  // encoding of the prefix length
-  while ((c->strLen - prevLen) < 2)
+  // Extracts, at least, the VByte encoding of the prefix length (one or more
+  // bytes) and one more byte
+  while (VByte::incomplete(c->str + prevLen, c->strLen - prevLen))
     end = table->processChunk(c);
 
   // Appends the extracted chars before the common prefix
